@@ -267,6 +267,16 @@ func c02Chain(c *core.Ctx, r *core.Result, cov Coverage, wal bool) {
 			r.NonTrivial(key)
 		}
 		dbfile := drive.DBFileOf(img.dir + "/db")
+		// the node that resumes must be the FIRST to open what the crash left behind (its own start-up code decides what happens
+		// to a hot journal): it gets an untouched copy of the image, the canonical dump below reads another
+		nearCommit0 := strings.Contains(img.desc, "COMMIT") || strings.Contains(img.desc, "commit") || strings.Contains(img.desc, "pn_metadata") || strings.Contains(img.desc, "pn_sync_version")
+		nodeDir := ""
+		if img.op%resumeStride == 0 || nearCommit0 || c.Only != "" {
+			nodeDir = img.dir + "-node"
+			if err := drive.CopyDB(img.dir+"/db", nodeDir+"/db"); err != nil {
+				panic("harness: image copy: " + err.Error())
+			}
+		}
 		// (a)+(b): open with a fresh read-write connection (SQLite recovers a hot journal)
 		openImg := canon.FileRW
 		if wal {
@@ -333,7 +343,7 @@ func c02Chain(c *core.Ctx, r *core.Result, cov Coverage, wal bool) {
 			r.Count("resumed", 1)
 			era := cov.Era
 			era.Apply()
-			rd, e := drive.Open(img.dir+"/db", fake.NewNode(b.Chain), nil, wal)
+			rd, e := drive.Open(nodeDir+"/db", fake.NewNode(b.Chain), nil, wal)
 			if e != nil {
 				r.Violate(core.Violation{Key: key, Signature: "C02:" + cov.Name + ":restart-refused:" + errClass(e.Error()), Desc: "fresh node refuses the crash image: " + e.Error(), Detail: []string{img.desc}})
 			} else {
@@ -342,7 +352,7 @@ func c02Chain(c *core.Ctx, r *core.Result, cov Coverage, wal bool) {
 				if !ro.Reached {
 					r.Violate(core.Violation{Key: key, Signature: "C02:" + cov.Name + ":resume-" + outcomeClass(ro) + ":" + errClass(ro.LastErr+ro.DiedMsg), Desc: "resume from crash image does not reach the tip: " + ro.String(), Detail: []string{img.desc}})
 				} else {
-					got, _ := c02Dump(dbfile, wal)
+					got, _ := c02Dump(drive.DBFileOf(nodeDir+"/db"), wal)
 					if !canon.Equal(D[tip], got) {
 						r.Violate(core.Violation{Key: key, Signature: "C02:" + cov.Name + ":resume-ledger-differs:" + strings.Join(canon.TablesDiffering(D[tip], got), "+"),
 							Desc:   fmt.Sprintf("resuming from the crash image (block %d in flight, %s) and syncing to the tip gives a different ledger than the uninterrupted run", img.height, img.desc),
@@ -391,6 +401,9 @@ func c02Chain(c *core.Ctx, r *core.Result, cov Coverage, wal bool) {
 			r.Sample(map[string]interface{}{"crash_point": key, "op": img.desc, "recorded_synced": synced, "tx_had_writes": img.dirty})
 		}
 		os.RemoveAll(img.dir)
+		if nodeDir != "" {
+			os.RemoveAll(nodeDir)
+		}
 	}
 }
 
